@@ -290,6 +290,7 @@ fn record_and_project(case: &Case, schedule: &Schedule, si: usize, rep: &mut Run
     let sim = Sim::new(&cfg);
     sim.install_clock_here();
     let store = SimStore::new(sim.clone(), base_image());
+    store.set_response_delay(simcore::store::seeded_response_delay(case.seed));
     let nexus = block(open_nexus(&store)).map_err(|e| violation!("c20.boot", "nexus failed to open: {e}"))?;
     let session = nexus.system_session();
     let (pred, sty, oty) = if case.functional { ("status", "Service", "Status") } else { ("prefers", "Person", "Preference") };
